@@ -254,7 +254,7 @@ theorem extractSpans_cutP (cls : Classes) (comment : Bytes) :
 /-- The UTF-16 length of a span is the UTF-16 length of the bytes it spans. -/
 theorem span_len16 (cls : Classes) (comment : Bytes) (sp : TagSpan) (h : SpanContent cls comment sp) :
     sp.len16 = u16lenB ((comment.drop sp.off).take sp.len) := by
-  rcases h with ⟨_, name, _, _, h16, hsl⟩ | ⟨_, value, _, _, h16, hsl⟩
+  rcases h with ⟨_, name, _, _, h16, hsl⟩ | ⟨_, value, _, _, _, h16, hsl⟩
   · rw [hsl, h16, u16lenB_snoc_ascii _ _ (by decide)]
   · rw [hsl, h16]
 
